@@ -4,6 +4,7 @@ import (
 	"context"
 	"fmt"
 	"os"
+	"strings"
 )
 
 type LValueType int
@@ -108,6 +109,20 @@ func (st LString) Format(f fmt.State, c rune) {
 		}
 	case 'q':
 		f.Write(quoteLua(string(st)))
+	case 's': // width and precision count bytes as C printf does, not runes
+		s := string(st)
+		if p, ok := f.Precision(); ok && p < len(s) {
+			s = s[:p]
+		}
+		pad := ""
+		if w, ok := f.Width(); ok && w > len(s) {
+			pad = strings.Repeat(" ", w-len(s))
+		}
+		if f.Flag('-') {
+			fmt.Fprint(f, s+pad)
+		} else {
+			fmt.Fprint(f, pad+s)
+		}
 	default:
 		defaultFormat(string(st), f, c)
 	}
